@@ -173,9 +173,27 @@ impl Meta {
                 p.nums.insert(label, first - 1);
             }
         }
-        let canon = gen::render(&p);
+        let mut canon = gen::render(&p);
         let seed = rng.next_u64();
-        let spelled = gen::render_spelled(&p, seed);
+        let mut spelled = gen::render_spelled(&p, seed);
+        // and a line with the operators that are words (IMP EQV AND OR MOD), once spaced, once run together
+        if let Some(first) = p.lines.first().map(|l| p.num(l.label)) {
+            if first > 0 && rng.coin() {
+                canon.insert(0, format!("{} A=5:B=3:PRINT A IMP B;A EQV B;A AND B;A OR B;A MOD B:A=0:B=0", first - 1));
+                spelled.insert(
+                    0,
+                    format!(
+                        "{} {}",
+                        first - 1,
+                        rng.pick(&[
+                            "a=5:b=3:printaimpb;aeqvb;aandb;aorb;amodb:a=0:b=0",
+                            "A=5:B=3:PRINTAIMPB;AEQVB;AANDB;AORB;AMODB:A=0:B=0",
+                            "A=5:B=3:?A imp B;A  EQV  B;A AND B;AORB;A mod B:A=0:B=0",
+                        ])
+                    ),
+                );
+            }
+        }
         let text = format!("{}\n--- respelled as ---\n{}", canon.join("\n"), spelled.join("\n"));
         mon::journal(&text);
         let mut a = typed_p(&p, &canon);
@@ -478,6 +496,12 @@ impl Meta {
             "DEFDBL Z",
             "DEFSTR A-Z",
             "DEFSNG A:DEFINT Y-Z:Z=4.5",
+            // statements that fail half way: a bad second subscript, a constant that does not fit its variable
+            "DIM ZY(3,3):ZY(1,-1)=5",
+            "PRINT ZX(1,40000)",
+            "DIM ZW(2,2,2):ZW(1,1,X1-1)=2",
+            "READ Q$",
+            "READ A%,Q$,B%",
             "DIM A(3),ZZ(2,2)",
             "A(2)=5",
             "DEF FNA(X)=X+100",
